@@ -175,9 +175,11 @@ def run_case(case):
 def configs(tier):
     out = []
 
-    def add(d, lmax, version, nref, D, s, automatic=False, single=False, towards=None, lmin=1, resume=None):
+    def add(d, lmax, version, nref, D, s, automatic=False, single=False, towards=None, lmin=1, resume=None, a=None, b=None):
         c = {"d": d, "lmin": lmin, "lmax": lmax, "version": version, "nref": nref, "automatic": automatic,
              "single_dim": single, "s": s, "special": d < 3 or tier != "quick"}
+        if a is not None:
+            c["a"], c["b"] = a, b
         if towards:
             c["towards"] = towards
         if resume:
@@ -205,6 +207,8 @@ def configs(tier):
             add(2, 2, 0, 1, 5, 1, towards=T2, resume=how)
             add(2, 2, 2, 1, 4, 1, towards=T2, resume=how)
             add(2, 2, 0, 1, 2, 1, resume=how)
+        # a domain far from the origin in one dimension
+        add(2, 2, 0, 1, 3, 1, a=[1048576.0, -1.0], b=[1048577.0, 3.0], towards=[[1048576.3, 0.2], [1048576.8, 2.2]])
         # start levels lmin >= 2
         for version in (0, 1, 2):
             add(2, 3, version, 1, 2, 1, lmin=2)
@@ -245,7 +249,7 @@ def main(ctx):
     for config, D in configs(ctx.tier):
         tag = "d%d_l%d%d_v%d_nref%d_auto%d_single%d_D%d_s%d%s" % (config["d"], config["lmin"], config["lmax"], config["version"], config["nref"],
                                                                 config["automatic"], config["single_dim"], D, config["s"],
-                                                                ("_towards" if config.get("towards") else "") + ("_resume_" + config["resume"] if config.get("resume") else ""))
+                                                                ("_towards" if config.get("towards") else "") + ("_resume_" + config["resume"] if config.get("resume") else "") + ("_far" if config.get("a") else ""))
         ctx.bounds[tag] = core.bfs(ctx, config, D, tag=tag)
     return ctx.finish(
         rule="state = sorted leaf areas (start,end,coarsening,splits so far) + lmax reached by a history of decisions: which leaf "
